@@ -3,7 +3,7 @@ from vlib import cN, cbool, clist, copt
 
 ID = "C17"
 PROPERTIES_V = ["theories/Properties/C17.v"]
-MAKE_TARGETS = ["theories/Properties/C17.vo", "theories/Model/C17Cases.vo", "theories/Proofs/GenAgreeBlockRange.vo", "theories/Proofs/GenAgreeBuildParams.vo", "theories/Proofs/GenAgreeLimitCert.vo"]
+MAKE_TARGETS = ["theories/Properties/C17.vo", "theories/Model/C17Cases.vo", "theories/Proofs/GenAgreeBlockRange.vo", "theories/Proofs/GenAgreeBuildParams.vo", "theories/Proofs/GenAgreeLimitCert.vo", "theories/Proofs/GenAgreeAdaptCert.vo"]
 HARNESS = "c17"
 CASES_IMPORTS = "From Coq Require Import NArith ZArith List.\nFrom Verif Require Import Model.CertCut Model.C17Cases."
 CASE_TYPE = "case17"
@@ -178,5 +178,6 @@ LEVEL_NOTE = ("Trusted: Coq kernel + vm_compute, Flocq 4.1 binary64 operations (
               "generic in the size function and closed under the global context), the hand transcription of the four Go functions (validated by "
               "the correspondence), the harness hook flows.VerifLimitCertSize, tools/gofacts for the size constants. "
               "Stated precondition: range spans < 2^63 blocks (int overflow of NumberOfBlocks beyond; refutation theorem + replay included).")
-TECHNIQUE = ("Coq proof (induction on the cut loop, list filter algebra, lia over uint64 wrap); block_range.go is TRANSLATED to Gallina on every run "
-             "(tools/go2coq -> Gen/GenBlockRange.v) and proved equal to the model; differential correspondence via vm_compute for the rest")
+TECHNIQUE = ("Coq proof (induction on the cut loop, list filter algebra, lia over uint64 wrap); block_range.go, certificate_build_params.go, limitCertSize "
+             "(flow_base.go) and AdaptCertificate (max_l2blocknumber_limiter.go) are TRANSLATED to Gallina on every run (tools/go2coq -> Gen/GenBlockRange.v, "
+             "GenBuildParams.v, GenLimitCert.v, GenAdaptCert.v) and proved equal to the model; differential correspondence via vm_compute")
